@@ -142,7 +142,7 @@ def lifecycle_table(ctx, meths):
     kinds = ('Select', 'Union', 'Insert', 'Update', 'Delete')
     isa = {k: set() for k in kinds + ('CreateTable', 'Show')}
     nrows = 0
-    for kind, n in itertools.product(kinds, (0, 2, 3)):
+    for kind, n in itertools.product(kinds, (0, 1, 2, 3)):
         placeholders = [Obj('Parameter', value='?', alias=(Obj('Identifier', parts=['p']) if i % 2 else None), _i=i) for i in range(n)]
         query = Obj(kind, left=Obj('Select', _part='left'), right=Obj('Select', _part='right'), targets=[], where=None, _whole=True)
         planner = Obj('QueryPlanner', statement=None, query=None)
@@ -188,7 +188,7 @@ def lifecycle_table(ctx, meths):
         ctx.ob('C12.reports-n', f'get_statement_info:{label}', got_n == n,
                f'[{label}] get_statement_info reports {got_n} parameters, expected {n}: one entry per collected placeholder', file=PREP, line=gi.lineno)
         # execution with m values
-        for m in sorted({max(n - 1, 0), n, n + 1}) + [None]:
+        for m in sorted({0, max(n - 1, 0), n, n + 1}) + [None]:   # 0 values = the empty list: falsy, and still a number of values
             planner2 = Obj('QueryPlanner', statement=Obj('Statement', params=list(placeholders), columns=[]), query=query, plan=Obj('QueryPlan', steps=['step']))
             self2 = Obj('PreparedStatementPlanner', planner=planner2)
             values = None if m is None else [f'v{i}' for i in range(m)]
@@ -230,6 +230,10 @@ def lifecycle_table(ctx, meths):
             else:
                 same_stmt = len(fills) == 1 and isinstance(fills[0][1], Obj) and (fills[0][1] is query or (fills[0][1].kind == kind and fills[0][1] == query))
                 ok = raised is None and same_stmt and (fills[0][2] is values or fills[0][2] == values) and len(plans) == 1 and plans[0][1] is filled
+                if n == 0 and not ok:
+                    # nothing to bind: planning the prepared statement as it is is the same thing
+                    ok = raised is None and not fills and len(plans) == 1 and isinstance(plans[0][1], Obj) and (
+                        plans[0][1] is query or (plans[0][1].kind == kind and plans[0][1] == query))
                 msg = 'the prepared statement (planner.query) is filled once with the caller\'s values and the filled statement is what is planned'
                 rule = 'C12.same-statement' if (raised is None and fills) else 'C12.count-check'
             ctx.ob(rule, lab, ok,
